@@ -250,6 +250,12 @@ pub fn gen_struct(ctx: &mut Ctx, o: &FOpts) -> Option<FCase> {
     if ctx.flag() {
         item.attrs.push(Instr::new("where_clause", None, "P: Clone"));
         tags.push("where".into());
+        // the deriving type's own where clause, written without / with a trailing comma (seed C17-02)
+        match ctx.choose(3) {
+            1 => { item.where_clause = "where i32: Copy".into(); tags.push("own-where".into()); }
+            2 => { item.where_clause = "where i32: Copy, ".into(); tags.push("own-where,".into()); }
+            _ => {}
+        }
     }
     let _ = has_from;
     Some(FCase { item, tags })
@@ -417,6 +423,11 @@ pub fn gen_enum(ctx: &mut Ctx, o: &FOpts) -> Option<FCase> {
     if ctx.flag() {
         item.attrs.push(Instr::new("where_clause", None, "i32: Clone"));
         tags.push("where".into());
+        match ctx.choose(3) {
+            1 => { item.where_clause = "where i32: Copy".into(); tags.push("own-where".into()); }
+            2 => { item.where_clause = "where i32: Copy, ".into(); tags.push("own-where,".into()); }
+            _ => {}
+        }
     }
     Some(FCase { item, tags })
 }
